@@ -106,8 +106,8 @@ func (x *run) stepRemoveChecked(rs *repState, s *sim.Step) error {
 			refs, _ := r.Raw.ListRefs("refs/remotes/")
 			for _, ref := range refs {
 				p := strings.Split(ref, "/")
-				if len(p) == 5 && p[3] == "bugs" && !local[p[4]] {
-					only = append(only, p[4])
+				if trackingRefRe.MatchString(ref) && p[len(p)-2] == "bugs" && !local[p[len(p)-1]] {
+					only = append(only, p[len(p)-1])
 				}
 			}
 			sort.Strings(only)
